@@ -20,7 +20,7 @@ SCHED_ASSUME = [
     "HashSet<BuildId> in Work::ready_dependents is modelled by a wrapper whose iteration yields each element exactly once in arbitrary order",
     "#builds < 2^32 and 5*#builds < 2^31 (tasks_failed is an i32), usize is 64 bit",
     "derive(PartialEq) on BuildState/BuildId/FileId is structural equality; std::mem::replace spec; Vec length <= usize::MAX",
-    "commands terminate (Runner::wait returns); -k >= 1 (failures_left != Some(0)) is a precondition of Work::run",
+    "commands terminate (Runner::wait returns); failures_left != Some(0) and parallelism >= 1 are preconditions of Work::run: run::parse_args is proved (over a lexopt shim whose parser yields arbitrary options and numbers) never to produce them (-k 0 -> no limit, -j 0 -> CPU count), run::build passes them to the Work::new stub whose precondition they are; that Work::new copies the options and that a phase-1 run without failures leaves the budget untouched is the protocol argument of unit run, not one theorem",
 ]
 TASK_ASSUME = ("unit task: the real bodies of Runner::{new,can_start_more,is_running,start,wait} and ThreadIds::{claim,release} are verified: can_start_more == (running < parallelism), start/wait change `running` by exactly one without overflow/underflow, "
     "slot indices are in range (wait never panics); TRUSTED representation axiom rs::ax_runner_repr: |live| == running and par == parallelism (which thread runs what cannot be stated over fields); the spawned closure of Runner::start is kept (thread::spawn, Instant::now, channel send/recv are stubs): "
@@ -44,17 +44,17 @@ PROPS["C04"] = {
 }
 PROPS["C05"] = {
     "units": ["sched", "run", "proc", "task"],
-    "probes": {"sched": ["work::Work::run", "work::Work::recheck_ready"], "run": ["run::build", "run::run_impl"], "proc": ["process_posix::run_command"], "task": ["task::run_task", "task::Runner::start"]},
+    "probes": {"sched": ["work::Work::run", "work::Work::recheck_ready"], "run": ["run::build", "run::run_impl", "run::parse_args"], "proc": ["process_posix::run_command"], "task": ["task::run_task", "task::Runner::start"]},
     "level": "proof",
     "assumptions": SCHED_ASSUME + [PROC_ASSUME, TASK_ASSUME, "unit run: build returns Ok(None) only after a Work::run that returned false, Ok(Some) only directly after one that returned true; run_impl maps None -> 1 (silently), Some -> 0 after the summary; main.rs (Err -> 1) is outside any contract",
                     "liveness clause ('every wanted step not downstream of a failure is still brought up to date') is not decided"],
 }
 PROPS["C06"] = {
-    "units": ["sched", "graph"],
-    "probes": {"sched": ["work::Work::run", "work::BuildStates::want_file", "work::Work::ready_dependents"], "graph": ["graph::Graph::add_build"]},
+    "units": ["sched", "graph", "run"],
+    "probes": {"sched": ["work::Work::run", "work::BuildStates::want_file", "work::Work::ready_dependents"], "graph": ["graph::Graph::add_build"], "run": ["run::parse_args"]},
     "level": "proof",
     "assumptions": SCHED_ASSUME + ["C06(a) PROVED under stated preconditions of Work::run: the `BUG: no work to do` panic is unreachable (panic! is a `requires false` obligation; no assume). The liveness invariant lv = (a Want step has a producer that is not Done) + (Ready steps are in the ready queue, Queued steps in a pool queue, the popped one excepted) + (wanted set closed under ordering inputs) is established by Work::new, kept by want_build/want_file/want_every_file/pop_ready/pop_queued/set/enqueue/ready_dependents and by graph changes of record_finished; at the panic point (no failure, nothing running, ready queue empty, no pool with capacity and a queued step, something pending) a Want step of minimal topological rank gives the contradiction",
-                    "Work::run preconditions NOT discharged by a verified caller (run::build's calls are behind the protocol stubs of unit run): -j >= 1 (run::parse_args maps 0 to the CPU count), the graph's ordering inputs are acyclic (the statement's 'for every acyclic graph'; want_file's cycle check is not connected to it), every step is listed among the dependents of its ordering inputs (deps_complete; Graph::add_build is proved to keep it in unit graph)",
+                    "Work::run preconditions NOT discharged by a verified caller (run::build's calls are behind the protocol stubs of unit run): -j >= 1 (proved for run::parse_args' result, unit run), the graph's ordering inputs are acyclic (the statement's 'for every acyclic graph'; want_file's cycle check is not connected to it), every step is listed among the dependents of its ordering inputs (deps_complete; Graph::add_build is proved to keep it in unit graph)",
                     "'every wanted step ends up to date' is decided as: Ok(true) only when every wanted step is Done, and the loop cannot stall; that the trusted Runner::wait eventually returns (commands terminate) is assumed",
                     "cycle *reporting* text is dropped (R4); that a cycle yields Err is by the stack check, that no step of a cycle becomes Ready follows from inv1 but is not stated as a separate clause"],
 }
